@@ -26,6 +26,7 @@ type impFn struct {
 	evRecv     bool            // the "receiver" is the event list of a callback parameter
 	fuels      []string        // explicit fuel parameters (loops without a recognised counting pattern)
 	usesNumCPU bool
+	inLoopNow  bool   // the statement being translated is inside a loop body
 	recv       string // receiver variable ("" = none); passed and returned by value
 	results    []*ity
 	scopes     []map[string]*ity
@@ -89,6 +90,9 @@ func (f *impFn) declare(at ast.Node, n string, t *ity) {
 	}
 	if f.lookup(n) != nil {
 		f.p.die(at, "declaration of %s shadows / repeats a live variable (outside the subset)", n)
+	}
+	if f.p.tg.digest && digestReserved[n] {
+		f.p.die(at, "the variable %s has the name of a parameter of the generated defs", n)
 	}
 	f.scopes[len(f.scopes)-1][n] = t
 	for _, d := range f.declOrd {
@@ -162,6 +166,11 @@ func nilTests(e ast.Expr, op token.Token, cmp token.Token, out *[]string) {
 
 func (f *impFn) expr(e ast.Expr, want *ity, c *ictx) (string, *ity) {
 	p := f.p
+	if p.tg.digest {
+		if s, t, ok := f.digestExpr(e, want, c); ok {
+			return s, t
+		}
+	}
 	switch v := e.(type) {
 	case *ast.ParenExpr:
 		return f.expr(v.X, want, c)
